@@ -39,6 +39,10 @@ type c11Op struct {
 	// the background compaction the receive started: its calls are made
 	// while the receive is the current operation)
 	CrashMut bool `json:"crashMut,omitempty"`
+	// FaultKind: "" = the process dies there (crash); "err" / "err-after" =
+	// that lower-layer call fails transiently instead (C13's subject, placed
+	// here because only long histories reach the background compaction)
+	FaultKind string `json:"faultKind,omitempty"`
 	// tamper
 	Store  string `json:"store,omitempty"`  // "eb" | "em"
 	Target int    `json:"target,omitempty"` // index into the store's sorted refs (mod len)
@@ -97,6 +101,9 @@ func genC11(tier string, run int, r *simcore.Rand) *harness.Plan {
 			// the compaction's own writes (packed meta upload, small meta removal)
 			op.CrashAt = r.Range(3, 6)
 			op.CrashMut = true
+			if r.Bool(0.5) {
+				op.FaultKind = []string{sim.FErr, sim.FErrAfter}[r.Intn(2)]
+			}
 		}
 		ops = append(ops, op)
 		recvd++
@@ -257,8 +264,13 @@ func execC11(rc *harness.RunCtx, p *harness.Plan, cfg *Config) *harness.Outcome 
 		case "recv":
 			env.Faults = nil
 			if op.CrashAt > 0 {
-				env.Faults = []sim.Fault{{Op: i, K: op.CrashAt, Kind: sim.FCrash, Mutating: op.CrashMut}}
+				kind := sim.FCrash
+				if op.FaultKind != "" {
+					kind = op.FaultKind
+				}
+				env.Faults = []sim.Fault{{Op: i, K: op.CrashAt, Kind: kind, Mutating: op.CrashMut}}
 			}
+			firedBefore := env.Fired[op.FaultKind]
 			sop := sim.Op{Kind: "recv", B: op.B}
 			// when a kill follows, return the instant the receive returns:
 			// the compaction it may have started is still in flight
@@ -295,8 +307,22 @@ func execC11(rc *harness.RunCtx, p *harness.Plan, cfg *Config) *harness.Outcome 
 				}
 				continue
 			}
-			if v := s.model.Check(sop, res, false); len(v) > 0 {
+			faulted := op.FaultKind != "" && env.Fired[op.FaultKind] > firedBefore
+			if v := s.model.Check(sop, res, faulted); len(v) > 0 {
 				return fail(i, classOf(v[0]), v[0])
+			}
+			if faulted {
+				// a transient failure inside the receive or the compaction it
+				// started: nothing acknowledged earlier may be lost, also not
+				// after the mapping is rebuilt from the wrapped stores alone
+				out.Fired["transient-"+op.FaultKind]++
+				env.Faults = nil
+				if msg := restart(true, false); msg != "" {
+					return fail(i, "recover-failed", "after a transient lower-layer failure: "+msg)
+				}
+				if v := sweep(false); v != "" {
+					return fail(i, "after-transient-fault:"+classOf(v), "after a transient lower-layer failure and a re-scan of the meta blobs: "+v)
+				}
 			}
 		case "fetch", "stat", "enum":
 			sop := sim.Op{Kind: op.K, B: op.B, Limit: 100000}
